@@ -87,12 +87,18 @@ def machine_spec(
             return draw(st.booleans())
         return False
 
+    aliased = set()
+
     def add(name, group, scope, att, provs):
         for prov in provs:
             if (name, prov) in seen:
                 continue
             seen.add((name, prov))
             c = {"name": name, "group": group, "scope": scope, "attach": att, "prov": prov, "async": False, "yields": 0, "ret": None, "sends": {}}
+            key = (group, repr(scope))
+            if att in ("func", "partial") and key not in aliased and draw(st.integers(0, 9)) < 4:
+                aliased.add(key)
+                c["alias"] = "<lambda>" if att == "func" else "handler"  # same __name__ as other free callables elsewhere
             cbs.append(c)
 
     def provs_for(att, allow_late=True):
@@ -274,7 +280,7 @@ def add_bundle(draw, spec):
         spec["trans"].append({"src": src, "dst": dst, "events": list(events), "internal": False, "cond": list(cond), "unless": list(unless)})
         return len(spec["trans"]) - 1
 
-    kind = draw(st.sampled_from([None, "multi-target", "multi-source", "any", "any"]))
+    kind = draw(st.sampled_from([None, "multi-target", "multi-source", "any", "any", "any2"]))
     if kind == "multi-target" and n >= 2:
         src = draw(st.sampled_from(nonfinal))
         dsts = draw(st.lists(st.integers(0, n - 1), min_size=2, max_size=min(3, n), unique=True))
@@ -293,6 +299,14 @@ def add_bundle(draw, spec):
         if spec["guards"] and draw(st.booleans()):
             u = [x for x in [draw(st.sampled_from([g["name"] for g in spec["guards"]]))] if x not in c and sum(1 for g in spec["guards"] if g["name"] == x) == 1]
         bundles.append({"k": [add(s_, dst, ["anyev"], c, u) for s_ in nonfinal], "how": "any"})
+    elif kind == "any2" and len(spec["guards"]) >= 1:
+        # two alternatives of one event, both declared with from_.any() into the same target, told apart by their guards
+        dst = draw(st.integers(0, n - 1))
+        names = [g["name"] for g in spec["guards"]]
+        c1 = [draw(st.sampled_from(names))]
+        c2 = [x for x in [draw(st.sampled_from(names))] if x not in c1]
+        bundles.append({"k": [add(s_, dst, ["anyev"], c1, []) for s_ in nonfinal], "how": "any"})
+        bundles.append({"k": [add(s_, dst, ["anyev"], c2, []) for s_ in nonfinal], "how": "any"})
     for t in spec["trans"]:
         for e in t["events"]:
             if e not in spec["events"]:
